@@ -286,11 +286,76 @@ pub fn templates() -> Gen<Vec<S>> {
     Gen::of(v)
 }
 
+/// Arguments of a call are evaluated in the CALLER's activation, also when the callee is the
+/// function already running (recursion, or a nested function calling its encloser): every pair
+/// of argument expressions over the function's own parameters, counter first or last.
+pub fn recursion_args() -> Gen<Vec<S>> {
+    let sadd = |x: E, y: E| bin(Op::Add, x, y);
+    let arg_alphabet = |a: &str, b: &str| -> Vec<E> {
+        vec![
+            var(a),
+            var(b),
+            sadd(var(a), st("x")),
+            sadd(var(b), var(a)),
+            E::Str(vec![SP::Lit("<".into()), SP::Var(a.into()), SP::Var(b.into()), SP::Lit(">".into())]),
+            call("w", vec![var(b), var(a), num("0")]),
+        ]
+    };
+    let mut v: Vec<Vec<S>> = Vec::new();
+    let alpha = arg_alphabet("a", "b");
+    for x in &alpha {
+        for y in &alpha {
+            for counter_first in [false, true] {
+                for nested in [false, true] {
+                    let dec = bin(Op::Sub, var("n"), num("1"));
+                    let (params, rec_args, first_args): (Vec<&str>, Vec<E>, Vec<E>) = if counter_first {
+                        (vec!["n", "a", "b"], vec![dec, x.clone(), y.clone()], vec![num("2"), st("L"), st("R")])
+                    } else {
+                        (vec!["a", "b", "n"], vec![x.clone(), y.clone(), dec], vec![st("L"), st("R"), num("2")])
+                    };
+                    // inside the argument alphabet `w(..)` is a call back into the running function with n = 0
+                    let fix = |e: &E| -> E {
+                        fn go(e: &E, counter_first: bool) -> E {
+                            match e {
+                                E::Call(f, args) if f == "w" => {
+                                    let a: Vec<E> = args.iter().map(|x| go(x, counter_first)).collect();
+                                    let ordered = if counter_first { vec![a[2].clone(), a[0].clone(), a[1].clone()] } else { a };
+                                    E::Call("walk".into(), ordered)
+                                }
+                                E::Bin(op, l, r) => E::Bin(*op, Box::new(go(l, counter_first)), Box::new(go(r, counter_first))),
+                                other => other.clone(),
+                            }
+                        }
+                        go(e, counter_first)
+                    };
+                    let rec_args: Vec<E> = rec_args.iter().map(fix).collect();
+                    let rec_call = call("walk", rec_args);
+                    let body: Vec<S> = if nested {
+                        vec![
+                            func("again", &[], vec![S::Ret(Some(rec_call))]),
+                            S::If(bin(Op::Gt, var("n"), num("0")), vec![S::Ret(Some(call("again", vec![])))], None),
+                            S::Ret(Some(E::Str(vec![SP::Var("a".into()), SP::Lit("-".into()), SP::Var("b".into())]))),
+                        ]
+                    } else {
+                        vec![
+                            S::If(bin(Op::Gt, var("n"), num("0")), vec![S::Ret(Some(rec_call))], None),
+                            S::Ret(Some(E::Str(vec![SP::Var("a".into()), SP::Lit("-".into()), SP::Var("b".into())]))),
+                        ]
+                    };
+                    v.push(vec![func("walk", &params, body), shout(call("walk", first_args))]);
+                }
+            }
+        }
+    }
+    Gen::of(v)
+}
+
 pub fn spaces(tier: Tier) -> Vec<Box<dyn Space>> {
     let n = if tier == Tier::Thorough { 6 } else { 5 };
     vec![
         Box::new(ScopeSpace { id: format!("forests-le{n}"), generator: forests(n, 3) }),
         Box::new(ScopeSpace { id: "templates".into(), generator: templates() }),
+        Box::new(ScopeSpace { id: "recursion-args".into(), generator: recursion_args() }),
     ]
 }
 
